@@ -74,6 +74,14 @@ func Solve(file string, timeoutS int, only []string) SolveResult {
 			_ = cmd.Run()
 			el := time.Since(start).Seconds()
 			txt := out.String()
+			for strings.HasPrefix(txt, "WARNING") {
+				// solver warnings precede the answer
+				if k := strings.IndexByte(txt, '\n'); k >= 0 {
+					txt = txt[k+1:]
+				} else {
+					break
+				}
+			}
 			first := strings.TrimSpace(strings.SplitN(txt, "\n", 2)[0])
 			st := "error"
 			switch {
@@ -257,10 +265,30 @@ func Discharge(obls []*Obligation, workdir string, timeoutS int) error {
 					return
 				}
 			}
-			o.Result = Solve(o.File, to, nil)
+			o.Result = solveWithRelevance(o, to)
 			if (o.Result.Status == "timeout" || o.Result.Status == "unknown") && splittable && len(o.Goal.Args) < 4 {
 				if r, ok := solveSplit(o, to); ok {
 					o.Result = r
+				}
+			}
+			if (o.Result.Status == "timeout" || o.Result.Status == "unknown") && o.expect() == "unsat" && o.RawScript == "" && o.Goal != nil {
+				// fallback: fewer assumptions (only those related to the goal); unsat remains a proof
+				for depth := 2; depth <= 2; depth++ {
+					sub := relevantAssumptions(o.Assume, o.Goal, depth)
+					if len(sub) == len(o.Assume) {
+						break
+					}
+					sc := o.Bank.Script(sub, o.Goal, o.chunks, o.Prelude, o.Axioms)
+					f := fmt.Sprintf("%s.rel%d.smt2", strings.TrimSuffix(o.File, ".smt2"), depth)
+					os.WriteFile(f, []byte(sc), 0o644)
+					r := Solve(f, to, nil)
+					if r.Status == "unsat" {
+						r.Backend += fmt.Sprintf("(rel%d)", depth)
+						r.Time += o.Result.Time
+						r.Detail = fmt.Sprintf("proved from %d of %d assumptions; ", len(sub), len(o.Assume)) + r.Detail
+						o.Result = r
+						break
+					}
 				}
 			}
 		}(o)
@@ -306,4 +334,124 @@ func solveSplit(o *Obligation, to int) (SolveResult, bool) {
 		}
 	}
 	return SolveResult{Status: "unsat", Backend: backend + "(split)", Time: total, Detail: fmt.Sprintf("proved as %d separate conjuncts", len(o.Goal.Args))}, true
+}
+
+func isHeapRoot(t *Term) bool {
+	return t.Op == "const" && (strings.HasPrefix(t.Name, "H_") || strings.HasPrefix(t.Name, "F_") || strings.HasPrefix(t.Name, "G_"))
+}
+
+// keyTerms collects the compound subterms (and non-heap leaf symbols) of t.
+func keyTerms(t *Term, into map[*Term]bool) {
+	if into[t] {
+		return
+	}
+	switch {
+	case t.IsLit() || t.Op == "true" || t.Op == "false" || t.Op == "var":
+		return
+	case len(t.Args) == 0:
+		if !isHeapRoot(t) {
+			into[t] = true
+		}
+		return
+	}
+	switch t.Op {
+	case "and", "or", "not", "=>", "=", "<", "<=", "ite", "forall", "exists", "+", "*":
+		// logical/arithmetic structure is not a key by itself
+	default:
+		if !t.bound {
+			into[t] = true
+		}
+	}
+	for _, a := range t.Args {
+		keyTerms(a, into)
+	}
+}
+
+// relevantAssumptions keeps the assumptions that share a key term with the goal (depth 1) or with
+// an assumption kept before (depth 2).
+func relevantAssumptions(assume []*Term, goal *Term, depth int) []*Term {
+	keys := map[*Term]bool{}
+	keyTerms(goal, keys)
+	kept := make([]bool, len(assume))
+	fkeys := make([]map[*Term]bool, len(assume))
+	for i, f := range assume {
+		fkeys[i] = map[*Term]bool{}
+		keyTerms(f, fkeys[i])
+	}
+	for d := 0; d < depth; d++ {
+		add := map[*Term]bool{}
+		for i := range assume {
+			if kept[i] {
+				continue
+			}
+			for k := range fkeys[i] {
+				if keys[k] {
+					kept[i] = true
+					break
+				}
+			}
+			if kept[i] {
+				for k := range fkeys[i] {
+					add[k] = true
+				}
+			}
+		}
+		for k := range add {
+			keys[k] = true
+		}
+	}
+	var out []*Term
+	for i, f := range assume {
+		if kept[i] {
+			out = append(out, f)
+		}
+	}
+	return out
+}
+
+// solveWithRelevance races the full query against the query restricted to the assumptions that
+// share a term with the goal. unsat of either is a proof; sat/unknown count only for the full one.
+func solveWithRelevance(o *Obligation, to int) SolveResult {
+	if o.expect() != "unsat" || o.RawScript != "" || o.Goal == nil || len(o.Assume) < 24 {
+		return Solve(o.File, to, nil)
+	}
+	sub := relevantAssumptions(o.Assume, o.Goal, 1)
+	if len(sub) >= len(o.Assume) {
+		return Solve(o.File, to, nil)
+	}
+	sc := o.Bank.Script(sub, o.Goal, o.chunks, o.Prelude, o.Axioms)
+	f := strings.TrimSuffix(o.File, ".smt2") + ".rel1.smt2"
+	os.WriteFile(f, []byte(sc), 0o644)
+	type tagged struct {
+		r    SolveResult
+		full bool
+	}
+	ch := make(chan tagged, 2)
+	go func() { ch <- tagged{Solve(o.File, to, nil), true} }()
+	go func() { ch <- tagged{Solve(f, to, nil), false} }()
+	first := <-ch
+	if first.r.Status == "unsat" {
+		if !first.full {
+			first.r.Backend += "(rel1)"
+			first.r.Detail = fmt.Sprintf("proved from %d of %d assumptions; ", len(sub), len(o.Assume)) + first.r.Detail
+		}
+		go func() { <-ch }()
+		return first.r
+	}
+	if first.full && first.r.Status == "sat" {
+		go func() { <-ch }()
+		return first.r
+	}
+	second := <-ch
+	if second.r.Status == "unsat" {
+		if !second.full {
+			second.r.Backend += "(rel1)"
+			second.r.Detail = fmt.Sprintf("proved from %d of %d assumptions; ", len(sub), len(o.Assume)) + second.r.Detail
+		}
+		return second.r
+	}
+	if first.full {
+		return first.r
+	}
+	return second.r
 }
